@@ -629,6 +629,108 @@ def r02_7(ctx):
     ctx.ob("R02.7", "closing-bracket-tests", n >= 10, "", f"{n} closing-bracket tests on whitespace-skipped or raw-peeked bytes analysed (floor 10)", nontrivial=False)
 
 
+READERS = ("skip_space", "skip_space_peek", "Reader::next", "Reader::peek", "next", "peek")
+PLUMBING = ("eat", "backward", "index", "error", "branch", "from_residual", "into", "from", "fix_position", "eq", "ne", "deref", "as_ref", "is_none", "is_some", "unwrap", "new_display", "new_debug", "panic", "panic_fmt", "from_str", "syntax", "clone", "drop")
+
+
+def r02_11(ctx):
+    """no trailing comma: after a ',' separator the next byte read is never accepted as the closing bracket.  For every
+    function with a byte dispatch that has an arm for ',', the blocks reached from that arm before anything else is parsed
+    are searched for the next dispatch on a read byte; it may not have an accepting arm for ']' or '}'"""
+    prog = ctx.prog()
+    n = 0
+    seen = collections.Counter()
+    for f in prog.fns.values():
+        if f.crate != "sonic_rs":
+            continue
+        sw = [(b, t, [x for v, x in t["targets"] if int(v) == 44][0]) for b, t in f.terms() if t["k"] == "switch" and t.get("dty") == "u8" and any(int(v) == 44 for v, _ in t["targets"]) and any(int(v) in (93, 125) for v, _ in t["targets"])]
+        # the same test written as a comparison of the Option<u8> with Some(b','): the edge on which it holds
+        for b, t in f.calls():
+            if not callee_is(t, "eq", "ne") or "Option<u8>" not in " ".join((t.get("rgargs") or []) + (t.get("gargs") or [])):
+                continue
+            comma = False
+            for a in t["args"][:2]:
+                l = op_local(a)
+                cands = [a] + ([lf[1] for lf in backward_slice(f, [l])[1] if lf[0] == "const"] if l is not None else [])
+                for c in cands:
+                    bs = c.get("bytes") if isinstance(c, dict) else None
+                    if bs and "Option<u8>" in c.get("ty", "") and bytes.fromhex(bs)[-1:] == b",":
+                        comma = True
+            if not comma:
+                continue
+            d = t["dest"][0]
+            holders = {d}
+            for bb, ii, ss in f.assigns():
+                if not ss["lhs"][1] and ss["rv"]["k"] == "use" and op_local(ss["rv"]["op"]) in holders:
+                    holders.add(ss["lhs"][0])
+            # a holder may also be set to the constant false on the short-circuit edge; true still implies the comparison held
+            for bb, tt in f.terms():
+                if tt["k"] == "switch" and tt.get("dty") == "bool":
+                    dl = op_local(tt["discr"])
+                    cur = dl
+                    for _ in range(4):
+                        if cur in holders:
+                            break
+                        dd = f.single_def(cur) if cur is not None else None
+                        if dd and dd[0] == "stmt" and dd[3]["rv"]["k"] == "use" and op_local(dd[3]["rv"]["op"]) is not None:
+                            cur = op_local(dd[3]["rv"]["op"])
+                        else:
+                            break
+                    if cur in holders:
+                        defs_ok = all((dd[0] == "stmt" and (op_local(dd[3]["rv"].get("op", {"k": "const"})) in holders or (dd[3]["rv"]["k"] == "use" and op_int(dd[3]["rv"]["op"]) == 0))) for dd in f.defs.get(cur, []))
+                        if defs_ok:
+                            edges = dict(switch_edges(f, bb))
+                            tt_true = edges.get(1, edges.get(None))
+                            ff = edges.get(0, edges.get(None))
+                            T = tt_true if callee_is(t, "eq") else ff
+                            if T is not None:
+                                sw.append((bb, tt, T))
+        if not sw:
+            continue
+        own = prog.fns.get(f.parent_fn, f) if f.parent_fn else f
+        if own.name.endswith("_unchecked") or own.name in ("get_from_array", "get_from_object") or own.name in SINK_NAMES:
+            continue  # the non-validating family promises nothing about malformed input
+        kinds = {b: k for b, k, _ in return_kinds(f)}
+        def err_only(x):
+            reach = f.reachable_from(x) | {x}
+            ks = {kinds[b] for b in reach if b in kinds}
+            # an arm that only constructs an error and returns
+            return bool(ks) and ks <= {"Err", "call"} and any(s["rv"]["k"] == "agg" and s["rv"].get("adt", "").endswith("ErrorCode") for b in reach for s in f.d["blocks"][b]["stmts"] if s["k"] == "assign")
+        for b0, t0, T in sw:
+            n += 1
+            # forward search: stop at value consumers
+            seenb = set()
+            work = [(T, 0)]
+            bad = []
+            while work:
+                b, reads = work.pop()
+                if (b, min(reads, 2)) in seenb or f.d["blocks"][b].get("cleanup"):
+                    continue
+                seenb.add((b, min(reads, 2)))
+                t = f.d["blocks"][b]["term"]
+                if t["k"] == "call":
+                    nm = t["callee"].rsplit("::", 1)[-1]
+                    if callee_is(t, *READERS) and ("Parser" in t["callee"] or "Reader" in t["callee"] or "reader::" in t["callee"]):
+                        reads += 1
+                    elif nm not in PLUMBING and ("Parser" in t["callee"] or "Deserializer" in t["callee"] or "visit" in nm or "deserialize" in nm):
+                        continue  # a value / key is parsed: it rejects a bracket by itself
+                if t["k"] == "switch" and t.get("dty") == "u8" and reads >= 1:
+                    for v, x in t["targets"]:
+                        if int(v) in (93, 125) and not err_only(x):
+                            bad.append((b, t, int(v)))
+                    continue
+                if reads > 1:
+                    continue
+                for x in f.succs(b):
+                    work.append((x, reads))
+            owner = prog.fns.get(f.parent_fn, f) if f.parent_fn else f
+            seen[short(owner.id)] += 1
+            ctx.ob("R02.11", f"no-trailing-comma:{short(owner.id)}#{seen[short(owner.id)]}", not bad, f.loc(bad[0][1]["ln"] if bad else t0["ln"]),
+                   "after a ',' the next byte read is not accepted as a closing bracket" if not bad else
+                   f"after a ',' the next byte read is accepted as {chr(bad[0][2])!r}: a trailing comma ({'[1,]' if bad[0][2] == 93 else chr(123) + chr(34) + 'a' + chr(34) + ':1,' + chr(125)}) is taken for well-formed")
+    ctx.floor("R02.11", "separator dispatches (byte switch with ',' and a closing bracket)", n, 8)
+
+
 def r02_9(ctx):
     c07.r07_4(ctx)
     # relabel
@@ -644,4 +746,4 @@ def r02_s(ctx):
         ctx.include(fn, 'R02.S')
 
 
-RULES = [("R02.1", r02_1), ("R02.2", r02_2), ("R02.3", r02_3), ("R02.4", r02_4), ("R02.5", r02_5), ("R02.6", r02_6), ("R02.7", r02_7), ("R02.8", r02_8), ("R02.9", r02_9), ("R02.10", r02_10), ("R02.S", r02_s)]
+RULES = [("R02.1", r02_1), ("R02.2", r02_2), ("R02.3", r02_3), ("R02.4", r02_4), ("R02.5", r02_5), ("R02.6", r02_6), ("R02.7", r02_7), ("R02.8", r02_8), ("R02.9", r02_9), ("R02.10", r02_10), ("R02.11", r02_11), ("R02.S", r02_s)]
